@@ -425,7 +425,7 @@ def cases(draw, n_min=4, n_max=14):
     n = g["n"]
     # link attributes may be zero on existing links (co-located nodes of a
     # distance attribute): lo=0 in a third of the weighted cases
-    return {"g": g, "w": draw(G.node_weights(n)),
+    return {"g": g, "w": draw(G.node_weights_wide(n)),
             "W": draw(st.one_of(st.none(), G.link_attr(n, directed),
                                 G.link_attr(n, directed, lo=0, hi=3))),
             "side": draw(st.lists(st.integers(0, 2), min_size=n, max_size=n)),
@@ -436,7 +436,7 @@ def cases(draw, n_min=4, n_max=14):
 def whole_cases(draw, n_min=2, n_max=12):
     g = draw(G.graphs(n_min, n_max, False))
     n = g["n"]
-    return {"g": g, "w": draw(G.node_weights(n)), "W": None,
+    return {"g": g, "w": draw(G.node_weights_wide(n)), "W": None,
             "order": draw(st.permutations(list(range(n))))}
 
 
